@@ -62,8 +62,9 @@ func add(
 	}
 
 	return func(e *am.Event) {
-		// flat skips unnecessary mutations
-		if flat && target.Is(names) {
+		// flat skips unnecessary mutations (unless queued ones may still change
+		// the target)
+		if flat && target.Is(names) && target.QueueLen() == 0 {
 			return
 		} else if flat {
 			if target.IsLocal() {
@@ -121,8 +122,9 @@ func remove(
 	target.OnDispose(gcHandler(source))
 
 	return func(e *am.Event) {
-		// flat skips unnecessary mutations
-		if flat && target.Not1(targetState) {
+		// flat skips unnecessary mutations (unless queued ones may still change
+		// the target)
+		if flat && target.Not1(targetState) && target.QueueLen() == 0 {
 			return
 		} else if flat {
 			if target.IsLocal() {
